@@ -390,7 +390,10 @@ def case(ctx, rng, idx, state):
                 mech = f"{q}(gk)!=g.{q}(k)"
                 if q == "berry_curvature" and noisy and mixing:
                     mech += "[non-symmetric_start,shell_mixed_by_site_group]"   # known finding, same root cause as the centres
-                ctx.close(mech, r1[q], expected, rtol=1e-7, scale=sc, what=q, witness=wit)
+                # rtol 1e-6 (was 1e-7): on the unchanged tree the symmetry of the Berry curvature holds to 0.3-0.7e-7 of the scale in thorough
+                # runs (residual asymmetry of the symmetrised matrices amplified by 1/gap^2 at gaps just above the tie guard) - too thin a
+                # margin; a genuine asymmetry is >= 7e-4 (the known finding) or O(1)
+                ctx.close(mech, r1[q], expected, rtol=1e-6, scale=sc, what=q, witness=wit)
         ctx.count("k_points_checked")
     # ---- (2) Hermiticity ---------------------------------------------------------------------------------------------------------------
     byR = matrices_by_R(system)
